@@ -179,6 +179,8 @@ where
 
         // Apply rewrites, then check hooks, then check limits, then check if saturated.
         let progress = apply_rewrites(&mut self.egraph, rewrites);
+        // the state the rules have seen: a hook may change the e-graph afterwards.
+        let measure = self.egraph.progress();
         result = result
             .and_then(|_| {
                 hooks
@@ -187,6 +189,8 @@ where
             })
             .and_then(|_| self.check_limits());
 
+        // what a hook changed has not been rewritten yet: such a state is not saturated.
+        let progress = progress || self.egraph.progress() != measure;
         if !progress {
             result = result.and_then(|_| Err(StopReason::Saturated));
         }
